@@ -1,14 +1,476 @@
-"""Text ropes (symbolic str).  pieces: ('lit', str) | ('atom', Atom)"""
+"""Text ropes (symbolic str).
+
+pieces
+  ('lit', str)
+  ('sym', term, flags)   term: z3 String expression; flags: dict(nosep=str of chars the piece cannot
+                         contain, nonempty=bool, sepchar=bool (a single character that is '/' or '\\'))
+Operations keep the piece structure where they can (split / replace / slicing at small concrete
+offsets / prefix tests) and fall back to z3's string theory for predicates.
+"""
 import builtins
 
 import z3
 
 from . import core, rope
-from .core import SxInt, SxBool, Unsupported, E, mkbool
+from .core import SxInt, SxBool, Unsupported, E, mkbool, tobool
 
 _str = builtins.str
 _isinstance = builtins.isinstance
 _len = builtins.len
+
+
+class StrShim(type):
+    def __instancecheck__(cls, x):
+        return _isinstance(x, _str) or type(x) is Text
+
+
+class SxStr(metaclass=StrShim):
+    """the name ``str`` inside instrumented modules"""
+
+    def __new__(cls, x='', *a, **k):
+        if type(x) is Text:
+            return x
+        if core.is_sym(x) or rope.isrope(x):
+            return '<sym>'
+        return _str(x, *a, **k)
+
+    @staticmethod
+    def maketrans(*a):
+        return _str.maketrans(*a)
+
+
+SxStr.__name__ = 'str'
+SxStr.__qualname__ = 'str'
+
+
+def _norm(pieces):
+    out = []
+    for p in pieces:
+        if p[0] == 'lit':
+            if not p[1]:
+                continue
+            if out and out[-1][0] == 'lit':
+                out[-1] = ('lit', out[-1][1] + p[1])
+                continue
+        else:
+            t = z3.simplify(p[1])
+            if z3.is_string_value(t):
+                s = t.as_string()
+                if out and out[-1][0] == 'lit':
+                    out[-1] = ('lit', out[-1][1] + s)
+                elif s:
+                    out.append(('lit', s))
+                continue
+            p = ('sym', t, p[2])
+        out.append(p)
+    return out
+
+
+def mk(pieces):
+    ps = _norm(pieces)
+    if not ps:
+        return ''
+    if _len(ps) == 1 and ps[0][0] == 'lit':
+        return ps[0][1]
+    t = object.__new__(Text)
+    t.p = tuple(ps)
+    return t
+
+
+def pieces_of(x):
+    if type(x) is Text:
+        return x.p
+    if _isinstance(x, _str):
+        return (('lit', x),) if x else ()
+    raise TypeError('expected str instance, %s found' % type(x).__name__)
+
+
+def istext(x):
+    return type(x) is Text
+
+
+def term_of(x):
+    ps = pieces_of(x)
+    ts = [z3.StringVal(p[1]) if p[0] == 'lit' else p[1] for p in ps]
+    if not ts:
+        return z3.StringVal('')
+    if _len(ts) == 1:
+        return ts[0]
+    return z3.Concat(*ts)
+
+
+def _plen(p):
+    if p[0] == 'lit':
+        return _len(p[1])
+    if p[2].get('sepchar'):
+        return 1
+    return SxInt.wrap(z3.Length(p[1]))
+
+
+def sx_len(x):
+    if type(x) is Text:
+        tot = 0
+        for p in x.p:
+            tot = tot + _plen(p)
+        return tot
+    return _len(x)
+
+
+def _same_sym(a, b):
+    return a[0] == 'sym' and b[0] == 'sym' and a[1].eq(b[1])
+
+
+def text_eq(x, y):
+    px, py = list(pieces_of(x)), list(pieces_of(y))
+    if not px and not py:
+        return True
+    # structural fast paths
+    if _len(px) == _len(py) and all((a[0] == 'lit' and b[0] == 'lit' and a[1] == b[1]) or _same_sym(a, b)
+                                    for a, b in zip(px, py)):
+        return True
+    if not px or not py:
+        other = px or py
+        # == '' : every piece empty
+        for p in other:
+            if p[0] == 'lit' or p[2].get('nonempty') or p[2].get('sepchar'):
+                return False
+        return core.And(*[SxInt.wrap(z3.Length(p[1])) == 0 for p in other])
+    # a literal against a single symbolic piece that cannot contain one of its characters
+    for a, b in ((px, py), (py, px)):
+        if _len(a) == 1 and a[0][0] == 'lit' and _len(b) == 1 and b[0][0] == 'sym':
+            excl = b[0][2].get('nosep', '')
+            if any(ch in excl for ch in a[0][1]):
+                return False
+            if b[0][2].get('sepchar') and a[0][1] not in ('/', '\\'):
+                return False
+    # strip common literal prefix / suffix and identical leading pieces
+    while px and py:
+        a, b = px[0], py[0]
+        if a[0] == 'lit' and b[0] == 'lit':
+            n = min(_len(a[1]), _len(b[1]))
+            if a[1][:n] != b[1][:n]:
+                return False
+            px[0] = ('lit', a[1][n:])
+            py[0] = ('lit', b[1][n:])
+            if not px[0][1]:
+                px.pop(0)
+            if not py[0][1]:
+                py.pop(0)
+            continue
+        if _same_sym(a, b):
+            px.pop(0)
+            py.pop(0)
+            continue
+        break
+    if not px and not py:
+        return True
+    return mkbool(term_of(mk(px)) == term_of(mk(py)))
+
+
+class Text:
+    __slots__ = ('p',)
+
+    def __init__(self, *a):
+        raise TypeError('use text.mk')
+
+    def __sxlen__(self):
+        return sx_len(self)
+
+    def __len__(self):
+        return core.concrete(sx_len(self))
+
+    def __sx_symbolic__(self):
+        return True
+
+    def __hash__(self):
+        raise Unsupported('hash of symbolic str')
+
+    def __bool__(self):
+        for p in self.p:
+            if p[0] == 'lit' or p[2].get('nonempty') or p[2].get('sepchar'):
+                return True
+        return bool(sx_len(self) > 0)
+
+    def __repr__(self):
+        return 'Text<' + ' + '.join(repr(p[1]) if p[0] == 'lit' else _str(p[1])[:40] for p in self.p) + '>'
+
+    def __str__(self):
+        return '<symbolic str>'
+
+    def __format__(self, spec):
+        return '<symbolic str>'
+
+    def __add__(self, o):
+        try:
+            return mk(self.p + tuple(pieces_of(o)))
+        except TypeError:
+            return NotImplemented
+
+    def __radd__(self, o):
+        try:
+            return mk(tuple(pieces_of(o)) + self.p)
+        except TypeError:
+            return NotImplemented
+
+    def __eq__(self, o):
+        if not (_isinstance(o, _str) or type(o) is Text):
+            return False
+        return text_eq(self, o)
+
+    def __ne__(self, o):
+        return core.Not(self.__eq__(o))
+
+    def __contains__(self, sub):
+        if _isinstance(sub, _str) and _len(sub) == 1:
+            # single character: decide structurally where possible
+            conds = []
+            for p in self.p:
+                if p[0] == 'lit':
+                    if sub in p[1]:
+                        return True
+                elif p[2].get('sepchar'):
+                    if sub in ('/', '\\'):
+                        conds.append(mkbool(p[1] == z3.StringVal(sub)))
+                elif sub in p[2].get('nosep', ''):
+                    continue
+                else:
+                    conds.append(mkbool(z3.Contains(p[1], z3.StringVal(sub))))
+            return bool(core.Or(*conds)) if conds else False
+        return bool(mkbool(z3.Contains(term_of(self), term_of(sub))))
+
+    def __getitem__(self, ix):
+        if _isinstance(ix, slice):
+            if ix.step not in (None, 1):
+                raise Unsupported('text slice with step')
+            return slice_text(self, ix.start, ix.stop)
+        r = slice_text(self, ix, ix + 1)
+        if not bool(sx_len(r) == 1):
+            raise IndexError('string index out of range')
+        return r
+
+    def replace(self, old, new, count=-1):
+        if count != -1 or not _isinstance(old, _str) or not _isinstance(new, _str) or _len(old) != 1:
+            raise Unsupported('text.replace form')
+        out = []
+        for p in self.p:
+            if p[0] == 'lit':
+                out.append(('lit', p[1].replace(old, new)))
+            elif p[2].get('sepchar'):
+                if old == '\\' and new == '/':
+                    out.append(('lit', '/'))
+                elif old == '/' and new == '\\':
+                    out.append(('lit', '\\'))
+                elif old in ('/', '\\'):
+                    raise Unsupported('replace of a separator character by %r' % new)
+                else:
+                    out.append(p)
+            elif old in p[2].get('nosep', ''):
+                out.append(p)
+            else:
+                raise Unsupported('replace inside an unconstrained symbolic piece')
+        return mk(out)
+
+    def split(self, sep=None, maxsplit=-1):
+        if not _isinstance(sep, _str) or _len(sep) != 1 or maxsplit != -1:
+            raise Unsupported('text.split form')
+        parts = []
+        cur = []
+        for p in self.p:
+            if p[0] == 'lit':
+                chunks = p[1].split(sep)
+                for ci, c in enumerate(chunks):
+                    if ci > 0:
+                        parts.append(mk(cur))
+                        cur = []
+                    if c:
+                        cur.append(('lit', c))
+            elif p[2].get('sepchar'):
+                if sep in ('/', '\\'):
+                    raise Unsupported('split on a separator while a symbolic separator is present')
+                cur.append(p)
+            elif sep in p[2].get('nosep', ''):
+                cur.append(p)
+            else:
+                raise Unsupported('split: symbolic piece may contain the separator')
+        parts.append(mk(cur))
+        return parts
+
+    def startswith(self, prefix):
+        if _isinstance(prefix, tuple):
+            return bool(core.Or(*[starts(self, p) for p in prefix]))
+        return starts(self, prefix)
+
+    def endswith(self, suffix):
+        return ends(self, suffix)
+
+    def encode(self, enc='utf-8', errors='strict'):
+        return encode(self, enc)
+
+    def upper(self):
+        return _map1(self, 'upper')
+
+    def lower(self):
+        return _map1(self, 'lower')
+
+    def lstrip(self, chars=None):
+        if not _isinstance(chars, _str) or _len(chars) != 1:
+            raise Unsupported('lstrip form')
+        ps = list(self.p)
+        while ps:
+            p = ps[0]
+            if p[0] == 'lit':
+                s = p[1].lstrip(chars)
+                if s:
+                    ps[0] = ('lit', s)
+                    break
+                ps.pop(0)
+                continue
+            if chars in p[2].get('nosep', '') and p[2].get('nonempty'):
+                break
+            raise Unsupported('lstrip over a symbolic piece')
+        return mk(ps)
+
+    def __getattr__(self, name):
+        raise Unsupported('str method %r on symbolic str' % name)
+
+    def __fspath__(self):
+        raise Unsupported('fspath of symbolic str')
+
+
+def _map1(t, how):
+    raise Unsupported('str.%s on symbolic str' % how)
+
+
+def starts(x, prefix):
+    """x.startswith(prefix) -> bool / SxBool (no fork)"""
+    px, pp = list(pieces_of(x)), list(pieces_of(prefix))
+    while pp:
+        if not px:
+            # prefix must be empty
+            return text_eq(mk(pp), '')
+        a, b = px[0], pp[0]
+        if a[0] == 'lit' and b[0] == 'lit':
+            n = min(_len(a[1]), _len(b[1]))
+            if a[1][:n] != b[1][:n]:
+                return False
+            ra, rb = a[1][n:], b[1][n:]
+            if ra:
+                px[0] = ('lit', ra)
+            else:
+                px.pop(0)
+            if rb:
+                pp[0] = ('lit', rb)
+            else:
+                pp.pop(0)
+            continue
+        if _same_sym(a, b):
+            px.pop(0)
+            pp.pop(0)
+            continue
+        # a literal character the symbolic head cannot contain
+        if a[0] == 'sym' and b[0] == 'lit' and a[2].get('nonempty') and b[1][0] in a[2].get('nosep', ''):
+            return False
+        if a[0] == 'lit' and b[0] == 'sym' and b[2].get('nonempty') and a[1][0] in b[2].get('nosep', ''):
+            return False
+        return mkbool(z3.PrefixOf(term_of(mk(pp)), term_of(mk(px))))
+    return True
+
+
+def ends(x, suffix):
+    px, pp = list(pieces_of(x)), list(pieces_of(suffix))
+    while pp:
+        if not px:
+            return text_eq(mk(pp), '')
+        a, b = px[-1], pp[-1]
+        if a[0] == 'lit' and b[0] == 'lit':
+            n = min(_len(a[1]), _len(b[1]))
+            if a[1][_len(a[1]) - n:] != b[1][_len(b[1]) - n:]:
+                return False
+            ra, rb = a[1][:_len(a[1]) - n], b[1][:_len(b[1]) - n]
+            if ra:
+                px[-1] = ('lit', ra)
+            else:
+                px.pop()
+            if rb:
+                pp[-1] = ('lit', rb)
+            else:
+                pp.pop()
+            continue
+        if _same_sym(a, b):
+            px.pop()
+            pp.pop()
+            continue
+        if a[0] == 'sym' and b[0] == 'lit' and a[2].get('nonempty') and b[1][-1] in a[2].get('nosep', ''):
+            return False
+        if a[0] == 'lit' and b[0] == 'sym' and b[2].get('nonempty') and a[1][-1] in b[2].get('nosep', ''):
+            return False
+        return mkbool(z3.SuffixOf(term_of(mk(pp)), term_of(mk(px))))
+    return True
+
+
+def _cut(pieces, k):
+    """split a piece list at concrete offset k -> (left, right); forks on symbolic piece lengths"""
+    left = []
+    ps = list(pieces)
+    rem = k
+    while ps:
+        if _isinstance(rem, builtins.int) and rem <= 0:
+            break
+        p = ps[0]
+        if p[0] == 'lit':
+            n = _len(p[1])
+            r = core.concrete(core.ite(rem > n, n, rem)) if not _isinstance(rem, builtins.int) else min(rem, n)
+            left.append(('lit', p[1][:r]))
+            if r < n:
+                ps[0] = ('lit', p[1][r:])
+                rem = 0
+                break
+            ps.pop(0)
+            rem = rem - r
+            continue
+        L = _plen(p)
+        if _isinstance(L, builtins.int):
+            # a single symbolic character
+            left.append(p)
+            ps.pop(0)
+            rem = rem - L
+            continue
+        if bool(L <= rem):
+            left.append(p)
+            ps.pop(0)
+            rem = rem - L
+            if not _isinstance(rem, builtins.int):
+                rem = core.concrete(rem, cap=16)
+            continue
+        # cut inside the symbolic piece
+        r = rem if _isinstance(rem, builtins.int) else core.concrete(rem, cap=16)
+        fl = dict(p[2])
+        a = ('sym', z3.SubString(p[1], 0, r), dict(nosep=fl.get('nosep', ''), nonempty=r > 0))
+        b = ('sym', z3.SubString(p[1], r, z3.Length(p[1]) - r), dict(nosep=fl.get('nosep', ''), nonempty=True))
+        left.append(a)
+        ps[0] = b
+        rem = 0
+        break
+    return left, ps
+
+
+def slice_text(x, a, b):
+    if a is None:
+        a = 0
+    if core.is_sym(a) or (b is not None and core.is_sym(b)):
+        raise Unsupported('text slice at a symbolic offset')
+    a = builtins.int(a)
+    if a < 0 or (b is not None and builtins.int(b) < 0):
+        raise Unsupported('negative text slice bound')
+    ps = list(pieces_of(x))
+    _, rest = _cut(ps, a)
+    if b is None:
+        return mk(rest)
+    b = builtins.int(b)
+    if b <= a:
+        return ''
+    mid, _ = _cut(rest, b - a)
+    return mk(mid)
 
 
 def join(sep, items):
@@ -24,21 +486,74 @@ def join(sep, items):
     return mk(out)
 
 
-def pieces_of(x):
-    if type(x) is Text:
-        return x.p
-    if _isinstance(x, _str):
-        return (('lit', x),) if x else ()
-    raise TypeError('sequence item: expected str instance, %s found' % type(x).__name__)
+def atom(name, nosep='/\\', nonempty=True, declare=True):
+    """fresh symbolic string that contains none of the characters in nosep"""
+    e = E()
+    t = z3.String('%s!%d' % (name, next(e.fresh)))
+    if declare:
+        e.inputs[name] = t
+    if nosep:
+        cls = None
+        for ch in nosep:
+            c = z3.Re(z3.StringVal(ch))
+            cls = c if cls is None else z3.Union(cls, c)
+        allowed = z3.Intersect(z3.AllChar(z3.ReSort(z3.StringSort())), z3.Complement(cls))
+        e.add(z3.InRe(t, z3.Plus(allowed) if nonempty else z3.Star(allowed)))
+    elif nonempty:
+        e.add(z3.Length(t) >= 1)
+    return mk([('sym', t, dict(nosep=nosep, nonempty=nonempty))])
 
 
-def mk(pieces):
-    raise Unsupported('text ropes not built yet')
+def sepchar(name):
+    """a single character that is '/' or '\\' (no fork)"""
+    e = E()
+    t = z3.String('%s!%d' % (name, next(e.fresh)))
+    e.inputs[name] = t
+    e.add(z3.Or(t == z3.StringVal('/'), t == z3.StringVal('\\')))
+    return mk([('sym', t, dict(sepchar=True, nonempty=True, nosep=''))])
 
 
-class Text:
-    pass
+# ------------------------------------------------------------------ utf-8 encode / decode (opaque)
+
+def encode(t, enc='utf-8'):
+    """utf-8 image: one opaque blob per symbolic piece (same piece -> same blob)"""
+    e = E()
+    cache = e.tags.setdefault('utf8', {})
+    out = []
+    for p in pieces_of(t):
+        if p[0] == 'lit':
+            out.append(('lit', p[1].encode(enc)))
+        else:
+            key = p[1].sexpr()
+            if key not in cache:
+                ln = e.newvar('utf8len', z3.IntSort())
+                e.add(ln >= z3.Length(p[1]), ln <= 4 * z3.Length(p[1]))
+                b = rope.Blob('utf8_%d' % _len(cache), ln, meta={'utf8_of': p})
+                cache[key] = b
+            b = cache[key]
+            out.append(('view', b, z3.IntVal(0), b.length))
+    return rope.mk(out)
 
 
-def decode(r, enc):
-    raise Unsupported('decode of symbolic bytes')
+def decode(r, enc='utf-8'):
+    if _isinstance(r, (bytes, bytearray)):
+        return bytes(r).decode(enc)
+    out = []
+    for p in rope.pieces_of(r):
+        if p[0] == 'lit':
+            try:
+                out.append(('lit', p[1].decode(enc)))
+            except UnicodeDecodeError:
+                raise
+        elif p[0] == 'view' and 'utf8_of' in p[1].meta and z3.simplify(p[2]).eq(z3.IntVal(0)) and \
+                (z3.simplify(p[3]).eq(z3.simplify(p[1].length)) or core.prove(p[3] == p[1].length)):
+            out.append(p[1].meta['utf8_of'])
+        else:
+            # arbitrary bytes: either not valid utf-8, or some unknown text
+            e = E()
+            if core.choose(2, 'utf8_invalid'):
+                raise UnicodeDecodeError(enc, b'\xff', 0, 1, 'invalid start byte (model)')
+            k = e.tags['dec'] = e.tags.get('dec', 0) + 1
+            t = z3.String('decoded%d!%d' % (k, next(e.fresh)))
+            out.append(('sym', t, dict(nosep='', nonempty=False)))
+    return mk(out)
